@@ -46,6 +46,35 @@ fn gen_input(rng: &mut Rng, idx: u64, directed: &[(String, Vec<u8>)]) -> (String
         let (w, _m, _s) = crate::genmod::encode_module(0x0001_0300, 0, 20_000, &insts, None);
         return (format!("long-last-line-{}", len), words_to_bytes(&w));
     }
+    if idx % 9 == 6 {
+        // text that "is" a module for a human but not for the loader: hex listings in the usual tool formats,
+        // the disassembly text itself, a module behind a length prefix or a byte-order mark
+        let b = gen_base(rng, vec![], true);
+        let w = &b.words;
+        let kind = rng.below(8);
+        let text: Vec<u8> = match kind {
+            0 => w.iter().map(|x| format!("0x{:08x}", x)).collect::<Vec<_>>().join(", ").into_bytes(),
+            1 => w.chunks(4).map(|c| c.iter().map(|x| format!("0x{:08x},", x)).collect::<Vec<_>>().join(" ")).collect::<Vec<_>>().join("\n").into_bytes(),
+            2 => format!("// Module\n{}\n", w.iter().map(|x| format!("\t0x{:08X},", x)).collect::<Vec<_>>().join("\n")).into_bytes(),
+            3 => w.iter().map(|x| format!("{:08x}", x)).collect::<Vec<_>>().join(" ").into_bytes(),
+            4 => match rspirv::dr::load_words(w) {
+                Ok(m) => m.disassemble().into_bytes(),
+                Err(_) => b"; SPIR-V\n; Version: 1.0\n".to_vec(),
+            },
+            5 => {
+                let mut v = ((w.len() * 4) as u32).to_le_bytes().to_vec();
+                v.extend(words_to_bytes(w));
+                v
+            }
+            6 => {
+                let mut v = vec![0xEF, 0xBB, 0xBF];
+                v.extend(words_to_bytes(w));
+                v
+            }
+            _ => format!("const uint32_t spirv[] = {{ {} }};", w.iter().map(|x| format!("{}", x)).collect::<Vec<_>>().join(", ")).into_bytes(),
+        };
+        return (format!("text-rendering-{}", kind), text);
+    }
     if idx % 9 == 7 {
         let variant = rng.next() % crate::scale::N_VARIANTS;
         let (label, insts) = crate::scale::scale_module(rng, variant);
@@ -212,7 +241,7 @@ fn gen_big(rng: &mut Rng, idx: u64, thorough: bool) -> (String, Vec<u8>) {
 }
 
 pub fn run(cfg: &Cfg, rep: &mut Report) {
-    rep.rule = "the rspirv-dis binary rebuilt from /repo is run as a process on generated files (empty, 1..19 bytes, valid modules of every kind, 16 structured mutators, directed crash-corpus classes, noise); exit status must be 0, stderr empty, stdout == in-process `load_bytes(..).map(disassemble)` or the Display of the loading error, plus exactly one newline (error case: a single line); a sample of the files is additionally run under valgrind memcheck (--error-exitcode). Stage `big`: listings of 0.3..4.5 MiB (thorough: up to 17 MiB) made of text mixing 1- to 4-byte characters, and input files just beyond 64 MiB (thorough: 128 MiB) whose last instructions must still be listed. distinct_nontrivial = distinct (input class, outcome class) pairs".into();
+    rep.rule = "the rspirv-dis binary rebuilt from /repo is run as a process on generated files (empty, 1..19 bytes, valid modules of every kind, 16 structured mutators, directed crash-corpus classes, noise, text renderings of modules: hex listings in tool formats, the disassembly text, length-prefixed and BOM-prefixed modules); exit status must be 0, stderr empty, stdout == in-process `load_bytes(..).map(disassemble)` or the Display of the loading error, plus exactly one newline (error case: a single line); a sample of the files is additionally run under valgrind memcheck (--error-exitcode). Stage `big`: listings of 0.3..4.5 MiB (thorough: up to 17 MiB) made of text mixing 1- to 4-byte characters, and input files just beyond 64 MiB (thorough: 128 MiB) whose last instructions must still be listed. distinct_nontrivial = distinct (input class, outcome class) pairs".into();
     let bin = dis_binary();
     if !bin.exists() {
         rep.inconclusive.push(format!("rspirv-dis binary not found at {}", bin.display()));
